@@ -264,4 +264,175 @@ theorem frameV_arr_of (fp : List Path) (rp : Path) (xs ys : List YVal)
     simp only [hr', Bool.not_true, Bool.false_eq_true, if_false, frameShape]
     exact h
 
+/-! ### more concerned paths, and frames in sequence -/
+
+theorem isTouched_append (f1 f2 : List Path) (p : Path) :
+    isTouched (f1 ++ f2) p = (isTouched f1 p || isTouched f2 p) := by
+  simp [isTouched, List.any_append]
+
+theorem reaches_append (f1 f2 : List Path) (p : Path) :
+    reaches (f1 ++ f2) p = (reaches f1 p || reaches f2 p) := by
+  simp [reaches, List.any_append]
+
+theorem isTouched_mono {f1 f : List Path} (hsub : ∀ q ∈ f1, q ∈ f) {p : Path} (h : isTouched f1 p = true) :
+    isTouched f p = true := by
+  simp only [isTouched, List.any_eq_true] at h ⊢
+  obtain ⟨q, hq, he⟩ := h
+  exact ⟨q, hsub q hq, he⟩
+
+theorem reaches_mono {f1 f : List Path} (hsub : ∀ q ∈ f1, q ∈ f) {p : Path} (h : reaches f1 p = true) :
+    reaches f p = true := by
+  simp only [reaches, List.any_eq_true] at h ⊢
+  obtain ⟨q, hq, he⟩ := h
+  exact ⟨q, hsub q hq, he⟩
+
+/-- An absent field is framed only when it is concerned. -/
+theorem frameV_none {fp : List Path} {rp : Path} {v : YVal} (h : frameV fp rp v none = true) :
+    isTouched fp rp.reverse = true := by
+  rw [frameV_eq] at h
+  split at h
+  · assumption
+  · split at h
+    · simp at h
+    · cases v <;> simp [frameShape] at h
+
+theorem frameV_mono_aux (n : Nat) : ∀ (a : YVal), sizeOf a ≤ n → ∀ (f1 f : List Path), (∀ q ∈ f1, q ∈ f) →
+    ∀ (rp : Path) (c : Option YVal), frameV f1 rp a c = true → frameV f rp a c = true := by
+  induction n with
+  | zero => intro a ha; cases a <;> simp at ha <;> omega
+  | succ n ih =>
+    intro a ha f1 f hsub rp c h
+    by_cases ht : isTouched f rp.reverse = true
+    · exact frameV_touched f rp a c ht
+    have ht1 : ¬ isTouched f1 rp.reverse = true := fun h1 => ht (isTouched_mono hsub h1)
+    rw [frameV_eq] at h
+    simp only [ht1, if_false] at h
+    by_cases hr1 : reaches f1 rp.reverse = true
+    · have hr : reaches f rp.reverse = true := reaches_mono hsub hr1
+      simp only [hr1, Bool.not_true, Bool.false_eq_true, if_false] at h
+      rw [frameV_eq]
+      simp only [ht, hr, Bool.not_true, Bool.false_eq_true, if_false]
+      cases a with
+      | obj es =>
+        cases c with
+        | none => simp [frameShape] at h
+        | some c' =>
+          cases c' <;> try (simpa [frameShape] using h)
+          rename_i fs
+          simp only [frameShape, Bool.and_eq_true] at h ⊢
+          refine ⟨(frameEs_iff f rp es [] fs).2 (fun k v _ hl => ?_), newKeysOK_of f rp es fs (fun k hk => ?_)⟩
+          · have := (frameEs_iff f1 rp es [] fs).1 h.1 k v (by simp) hl
+            have hs := sizeOf_lookup hl
+            simp at ha
+            exact ih v (by omega) f1 f hsub _ _ this
+          · rcases newKeysOK_elim f1 rp es fs h.2 k hk with h' | h'
+            · exact Or.inl h'
+            · exact Or.inr (isTouched_mono hsub h')
+      | arr xs =>
+        cases c with
+        | none => simp [frameShape] at h
+        | some c' =>
+          cases c' <;> try (simpa [frameShape] using h)
+          rename_i ys
+          simp only [frameShape] at h ⊢
+          obtain ⟨hl, hi⟩ := frameList_elim f1 rp xs ys h
+          refine frameList_of f rp xs ys hl (fun i hx hy => ?_)
+          have hs := List.sizeOf_lt_of_mem (List.getElem_mem hx)
+          simp at ha
+          exact ih _ (by omega) f1 f hsub _ _ (hi i hx hy)
+      | _ => simpa [frameShape] using h
+    · simp only [hr1, Bool.not_false, if_true] at h
+      rw [(optBeq_iff _ _).1 h]
+      exact frameV_self f rp a
+
+theorem frameV_mono {f1 f : List Path} (hsub : ∀ q ∈ f1, q ∈ f) {rp : Path} {a : YVal} {c : Option YVal}
+    (h : frameV f1 rp a c = true) : frameV f rp a c = true :=
+  frameV_mono_aux (sizeOf a) a (Nat.le_refl _) f1 f hsub rp c h
+
+/-- The three ways the shape part can hold. -/
+theorem frameShape_cases {f : List Path} {rp : Path} {b : YVal} {c : Option YVal}
+    (h : frameShape f rp b c = true) :
+    c = some b ∨
+    (∃ fs gs, b = .obj fs ∧ c = some (.obj gs) ∧ frameEs f rp [] fs gs = true ∧ newKeysOK f rp fs gs = true) ∨
+    (∃ ys zs, b = .arr ys ∧ c = some (.arr zs) ∧ frameList f rp ys zs = true) := by
+  cases b <;> cases c <;> (try (rename_i c'; cases c')) <;>
+    simp_all [frameShape, optBeq_iff, YVal.beq_iff] <;> (try (subst h; simp))
+
+theorem frameV_trans_aux (n : Nat) : ∀ (a : YVal), sizeOf a ≤ n → ∀ (f1 f2 : List Path) (rp : Path)
+    (b : YVal) (c : Option YVal), frameV f1 rp a (some b) = true → frameV f2 rp b c = true →
+    frameV (f1 ++ f2) rp a c = true := by
+  induction n with
+  | zero => intro a ha; cases a <;> simp at ha <;> omega
+  | succ n ih =>
+    intro a ha f1 f2 rp b c h1 h2
+    have sub1 : ∀ q ∈ f1, q ∈ f1 ++ f2 := fun q hq => by simp [hq]
+    have sub2 : ∀ q ∈ f2, q ∈ f1 ++ f2 := fun q hq => by simp [hq]
+    by_cases ht : isTouched (f1 ++ f2) rp.reverse = true
+    · exact frameV_touched _ rp a c ht
+    have htf := ht
+    rw [isTouched_append] at ht
+    simp only [Bool.or_eq_true, not_or] at ht
+    have h1' := h1
+    have h2' := h2
+    rw [frameV_eq] at h1' h2'
+    simp only [ht.1, ht.2, if_false] at h1' h2'
+    by_cases hr1 : reaches f1 rp.reverse = true
+    · by_cases hr2 : reaches f2 rp.reverse = true
+      · simp only [hr1, hr2, Bool.not_true, Bool.false_eq_true, if_false] at h1' h2'
+        have hr : reaches (f1 ++ f2) rp.reverse = true := by rw [reaches_append, hr1]; rfl
+        rcases frameShape_cases h1' with hb | ⟨es, fs, rfl, hb, he1, hn1⟩ | ⟨xs, ys, rfl, hb, hl1⟩
+        · -- the first run left this subtree as it was
+          cases hb; exact frameV_mono sub2 h2
+        · cases hb
+          rcases frameShape_cases h2' with hc | ⟨fs', gs, hfs, rfl, he2, hn2⟩ | ⟨_, _, hfs, _, _⟩
+          · subst hc; exact frameV_mono sub1 h1
+          · cases hfs
+            rw [frameV_eq]
+            simp only [htf, hr, Bool.not_true, Bool.false_eq_true, if_false, frameShape, Bool.and_eq_true]
+            refine ⟨(frameEs_iff _ rp es [] gs).2 (fun k v _ hl => ?_), newKeysOK_of _ rp es gs (fun k hk => ?_)⟩
+            · have hv := (frameEs_iff f1 rp es [] fs).1 he1 k v (by simp) hl
+              cases hf : lookup k fs with
+              | none =>
+                rw [hf] at hv
+                exact frameV_touched _ _ _ _ (isTouched_mono sub1 (frameV_none hv))
+              | some w =>
+                rw [hf] at hv
+                have hw := (frameEs_iff f2 rp fs [] gs).1 he2 k w (by simp) hf
+                have hs := sizeOf_lookup hl
+                simp at ha
+                exact ih v (by omega) f1 f2 _ w _ hv hw
+            · rcases newKeysOK_elim f2 rp fs gs hn2 k hk with h' | h'
+              · rcases newKeysOK_elim f1 rp es fs hn1 k h' with h'' | h''
+                · exact Or.inl h''
+                · exact Or.inr (isTouched_mono sub1 h'')
+              · exact Or.inr (isTouched_mono sub2 h')
+          · cases hfs
+        · cases hb
+          rcases frameShape_cases h2' with hc | ⟨_, _, hys, _, _, _⟩ | ⟨ys', zs, hys, rfl, hl2⟩
+          · subst hc; exact frameV_mono sub1 h1
+          · cases hys
+          · cases hys
+            rw [frameV_eq]
+            simp only [htf, hr, Bool.not_true, Bool.false_eq_true, if_false, frameShape]
+            obtain ⟨hlen1, hi1⟩ := frameList_elim f1 rp xs ys hl1
+            obtain ⟨hlen2, hi2⟩ := frameList_elim f2 rp ys zs hl2
+            refine frameList_of _ rp xs zs (by omega) (fun i hx hz => ?_)
+            have hy : i < ys.length := by omega
+            have hs := List.sizeOf_lt_of_mem (List.getElem_mem hx)
+            simp at ha
+            exact ih _ (by omega) f1 f2 _ _ _ (hi1 i hx hy) (hi2 i hy hz)
+      · simp only [hr2, Bool.not_false, if_true] at h2'
+        rw [(optBeq_iff _ _).1 h2']
+        exact frameV_mono sub1 h1
+    · simp only [hr1, Bool.not_false, if_true] at h1'
+      have : b = a := by simpa using (optBeq_iff _ _).1 h1'
+      subst this
+      exact frameV_mono sub2 h2
+
+/-- Frames of two consecutive runs compose. -/
+theorem frameV_trans {f1 f2 : List Path} {rp : Path} {a b : YVal} {c : Option YVal}
+    (h1 : frameV f1 rp a (some b) = true) (h2 : frameV f2 rp b c = true) :
+    frameV (f1 ++ f2) rp a c = true :=
+  frameV_trans_aux (sizeOf a) a (Nat.le_refl _) f1 f2 rp b c h1 h2
+
 end AGH.C13
